@@ -1,4 +1,5 @@
 import GdslModel.Model.Store
+import GdslModel.Model.Search
 /-!
 # Specification vocabulary shared by the property theorems (core Lean only)
 -/
@@ -22,5 +23,88 @@ def unAdj (s : Store K E) : K → List (K × E) := fun u => (s.get u).out ++ (s.
 def eraseKey (l : List (K × E)) (k : K) : List (K × E) := l.eraseP (fun p => p.1 = k)
 /-- drop every entry with key `k` -/
 def dropKey (l : List (K × E)) (k : K) : List (K × E) := l.filter (fun p => ¬ (p.1 = k))
+
+end G
+
+/-! ## Graph-theoretic vocabulary for the traversal properties -/
+namespace G
+variable {K E : Type} [DecidableEq K]
+
+/-- the graph of accepted edges: what a pure filter leaves of the iterated lists -/
+def accAdj (adj : K → List (K × E)) (acc : K → K → E → Bool) : K → List (K × E) :=
+  fun u => (adj u).filter (fun p => acc u p.1 p.2)
+
+/-- the edges a node's iterator yields, as `(node, peer, value)` -/
+def edgesOf (adj : K → List (K × E)) (u : K) : List (Edge K E) := (adj u).map (fun p => (u, p.1, p.2))
+
+inductive Reach (adj : K → List (K × E)) : K → K → Prop where
+  | refl (a : K) : Reach adj a a
+  | step {a b c : K} {e : E} : Reach adj a b → (c, e) ∈ adj b → Reach adj a c
+
+/-- a walk: every edge `(b, c, e)` is an element (with its value) of `b`'s list, edges are joined end to start -/
+inductive Walk (adj : K → List (K × E)) : K → K → List (Edge K E) → Prop where
+  | nil (a : K) : Walk adj a a []
+  | snoc {a b c : K} {e : E} {p : List (Edge K E)} :
+      Walk adj a b p → (c, e) ∈ adj b → Walk adj a c (p ++ [(b, c, e)])
+
+/-- a path of one or more existing edges from `r` to `t` -/
+def IsPath (adj : K → List (K × E)) (r t : K) (p : List (Edge K E)) : Prop := p ≠ [] ∧ Walk adj r t p
+
+/-- a finite universe closed under the edges (needed for termination only) -/
+def Closed (adj : K → List (K × E)) (nodes : List K) : Prop := ∀ u ∈ nodes, ∀ p ∈ adj u, p.1 ∈ nodes
+
+/-- consecutive edges are joined end to start, from `a` to `b` (no graph involved) -/
+inductive Chain : K → K → List (Edge K E) → Prop where
+  | nil (a : K) : Chain a a []
+  | snoc {a b c : K} {e : E} {p : List (Edge K E)} : Chain a b p → Chain a c (p ++ [(b, c, e)])
+
+/-- `a` occurs strictly before `b` in `l` -/
+def Before (l : List K) (a b : K) : Prop := ∃ l1 l2, l = l1 ++ a :: l2 ∧ b ∈ l2
+
+end G
+
+namespace G
+variable {K E : Type} [DecidableEq K]
+
+/-- the target a run looks for: the root itself for `search_cycle`, the configured target otherwise -/
+def goal (root : K) (target : Option K) (cycle : Bool) : Option K := if cycle then some root else target
+
+/-- discovery trees: every edge's source is the root or the target of an earlier edge -/
+inductive DTree (r : K) : List (Edge K E) → Prop where
+  | nil : DTree r []
+  | snoc {t : List (Edge K E)} {u v : K} {e : E} :
+      DTree r t → (u = r ∨ ∃ x ∈ t, x.2.1 = u) → DTree r (t ++ [(u, v, e)])
+
+/-- A depth-first traversal of graph `A`, non-deterministic in the order in which a node's edges
+    are tried: `Dfs A vis u disc fin vis'` = continuing at `u` (already visited) with visited set
+    `vis`, the traversal discovers `disc` (in this order) and finishes `fin` (in this order, `u`
+    last), ending with visited set `vis'`. -/
+inductive Dfs (A : K → List (K × E)) : List K → K → List K → List K → List K → Prop where
+  | finish {vis : List K} {u : K} : (∀ p ∈ A u, p.1 ∈ vis) → Dfs A vis u [] [u] vis
+  | descend {vis vis1 vis2 : List K} {u v : K} {e : E} {d1 f1 d2 f2 : List K} :
+      (v, e) ∈ A u → v ∉ vis → Dfs A (v :: vis) v d1 f1 vis1 → Dfs A vis1 u d2 f2 vis2 →
+      Dfs A vis u (v :: d1 ++ d2) (f1 ++ f2) vis2
+
+/-- binary max-heap order on a list (children of `i` are `2i+1`, `2i+2`) -/
+def IsHeap {α : Type} (key : α → Int) (d : List α) : Prop :=
+  ∀ i, 0 < i → ∀ (h : i < d.length), key d[i] ≤ key (d[(i - 1) / 2]'(by omega))
+
+/-- `pfsLoop` instrumented with a ghost log: for every expansion, the popped element and the
+    heap contents that stayed pending at that moment. Erases to `pfsLoop` (`Pfs.log_erases`). -/
+def pfsLoopLog (c : Cfg K E) (prio : K → Int) :
+    Nat → List (K × Int) → TSt K E → List ((K × Int) × List (K × Int)) →
+    Option (Bool × TSt K E × List ((K × Int) × List (K × Int)))
+  | 0, _, _, _ => none
+  | fuel + 1, h, st, log =>
+    match heapPop (·.2) h with
+    | none => some (false, st, log)
+    | some ((u, pu), h') =>
+      match pfsScan c prio u (c.adj u) st h' with
+      | (true, st', _) => some (true, st', log ++ [((u, pu), h')])
+      | (false, st', h'') => pfsLoopLog c prio fuel h'' st' (log ++ [((u, pu), h')])
+
+/-- exchange the two lists of every node: the edge-reversed store -/
+def swapStore (s : Store K E) : Store K E :=
+  ⟨s.cells.map (fun p => (p.1, { out := p.2.inn, inn := p.2.out }))⟩
 
 end G
